@@ -134,10 +134,27 @@ Proof.
   intros st mask r id H. unfold span_parent in H. destruct r as [y|]; [|discriminate].
   destruct (sp_get st y); [|discriminate]. eapply parent_from_visible; eauto.
 Qed.
+(** [SpanRef::parent] hands its own FilterId on to the SpanRef it returns *)
+Lemma sr_parent_filter : forall st r p, sr_parent st r = Some p -> snd p = snd r.
+Proof. intros st r p H. unfold sr_parent in H. destruct (span_parent st (snd r) (Some (fst r))); inversion H; reflexivity. Qed.
+Lemma sr_parent_visible : forall st r p, sr_parent st r = Some p -> visible st (snd r) (fst p) = true.
+Proof.
+  intros st r p H. unfold sr_parent in H. destruct (span_parent st (snd r) (Some (fst r))) as [x|] eqn:E; inversion H; subst.
+  simpl. eapply span_parent_visible; eauto.
+Qed.
+Lemma parent_chain_visible : forall fuel st r id, In id (parent_chain fuel st r) -> visible st (snd r) id = true.
+Proof.
+  induction fuel as [|k IH]; intros st r id H; simpl in H; [destruct H|].
+  destruct (sr_parent st r) as [p|] eqn:E; [|destruct H]. destruct H as [H|H].
+  - subst. eapply sr_parent_visible; eauto.
+  - rewrite <- (sr_parent_filter _ _ _ E). eapply IH; eauto.
+Qed.
+
 Lemma record_mentions : forall n st mask w id, In id (mentions (record n st mask w)) -> visible st mask id = true.
 Proof.
-  intros n st mask w id H. unfold record, mentions in H.
-  apply in_app_or in H. destruct H as [H|H]; [|apply in_app_or in H; destruct H as [H|H]; [|apply in_app_or in H; destruct H as [H|H]]].
+  intros n st mask w id H. unfold record, mentions in H. cbn [nv_each nv_chain nv_pscope nv_root] in H.
+  apply in_app_or in H. destruct H as [H|H]; [|apply in_app_or in H; destruct H as [H|H]; [|apply in_app_or in H; destruct H as [H|H];
+    [|apply in_app_or in H; destruct H as [H|H]; [|apply in_app_or in H; destruct H as [H|H]; [|apply in_app_or in H; destruct H as [H|H]]]]]].
   - destruct (lookup_current st mask) as [x|] eqn:E; [|destruct H]. destruct H as [H|[]]. subst. eapply lookup_current_visible; eauto.
   - eapply scope_from_visible; eauto.
   - destruct (span_parent st mask (span_ref st mask w)) as [x|] eqn:E; [|destruct H]. destruct H as [H|[]]. subst. eapply span_parent_visible; eauto.
@@ -145,6 +162,67 @@ Proof.
     subst e. cbn [fst snd] in H. apply in_app_or in H. destruct H as [H|H].
     + destruct (span_parent st mask (Some y)) as [x|] eqn:E; [|destruct H]. destruct H as [H|[]]. subst. eapply span_parent_visible; eauto.
     + eapply scope_from_visible; eauto.
+  - destruct (span_ref st mask w) as [x|]; cbn [ref_of] in H; [|destruct H]. apply (parent_chain_visible _ _ (x, mask) id H).
+  - destruct (span_ref st mask w) as [x|]; cbn [ref_of] in H; [|destruct H].
+    destruct (sr_parent st (x, mask)) as [p|] eqn:E; [|destruct H]. unfold sr_scope in H.
+    rewrite (sr_parent_filter _ _ _ E) in H. cbn [snd] in H. eapply scope_from_visible; eauto.
+  - apply in_rev in H. eapply scope_from_visible; eauto.
+Qed.
+
+(** * Exactness of the lookups: with [acc] = "visible through this FilterId", every lookup is the walk of the real
+      tree / stack filtered by [acc] *)
+Section Exact.
+  Variables (st : state) (mask : N) (acc : N -> bool).
+  Hypothesis Hv : forall id, visible st mask id = acc id.
+
+  Lemma fm_acc : forall id d, sp_get st id = Some d -> fm_enabled (sd_fmap d) mask = acc id.
+  Proof. intros id d E. rewrite <- Hv. unfold visible. rewrite E. reflexivity. Qed.
+  Lemma scope_from_by : forall k x, scope_from k st mask x = filter acc (anc k st x).
+  Proof.
+    induction k as [|k IH]; intros x; simpl; auto. destruct x as [id|]; auto.
+    destruct (sp_get st id) as [d|] eqn:E; auto. simpl. rewrite (fm_acc id d E), IH. destruct (acc id); reflexivity.
+  Qed.
+  Lemma parent_from_by : forall k x, parent_from k st mask x = hd_error (filter acc (anc k st x)).
+  Proof.
+    induction k as [|k IH]; intros x; simpl; auto. destruct x as [id|]; auto.
+    destruct (sp_get st id) as [d|] eqn:E; auto. simpl. rewrite (fm_acc id d E), IH. destruct (acc id); reflexivity.
+  Qed.
+  Lemma find_acc : forall l, find (visible st mask) l = find acc l.
+  Proof. induction l as [|x l IH]; simpl; auto. rewrite Hv, IH. reflexivity. Qed.
+  Lemma lookup_current_by : lookup_current st mask = current_by acc st.
+  Proof.
+    unfold lookup_current, current_by. destruct (current st) as [id|] eqn:Ec; auto.
+    unfold current in Ec. destruct (stack_iter st) as [|top rest] eqn:Es; [discriminate|].
+    destruct (sp_get st top); inversion Ec; subst. rewrite find_acc. simpl. rewrite Hv. destruct (acc id); reflexivity.
+  Qed.
+  Lemma span_parent_by : forall r, span_parent st mask r = parent_by acc st r.
+  Proof.
+    intros [id|]; auto. unfold span_parent, parent_by, above. destruct (sp_get st id); auto. apply parent_from_by.
+  Qed.
+  Lemma span_ref_by : forall w, span_ref st mask w = ref_by acc st w.
+  Proof. intros []; simpl; try rewrite Hv; auto. apply lookup_current_by. Qed.
+  Lemma parent_chain_by : forall k x, parent_chain k st (x, mask) = chain_by k acc st x.
+  Proof.
+    induction k as [|k IH]; intros x; cbn [parent_chain chain_by]; auto. unfold sr_parent. cbn [fst snd].
+    rewrite (span_parent_by (Some x)). destruct (parent_by acc st (Some x)) as [p|]; auto. cbn [fst]. rewrite IH. reflexivity.
+  Qed.
+  Lemma record_by_eq : forall n w, record n st mask w = record_by acc n st w.
+  Proof.
+    intros n w. unfold record, record_by. rewrite span_ref_by, lookup_current_by, span_parent_by.
+    unfold scope_by. rewrite <- !scope_from_by. f_equal. f_equal.
+    - apply map_ext. intros id. rewrite span_parent_by. unfold scope_by. rewrite scope_from_by. reflexivity.
+    - destruct (ref_by acc st w) as [x|]; cbn [ref_of]; auto. apply parent_chain_by.
+    - destruct (ref_by acc st w) as [x|]; cbn [ref_of]; auto. unfold sr_parent. cbn [fst snd]. rewrite (span_parent_by (Some x)).
+      destruct (parent_by acc st (Some x)) as [p|]; auto. unfold sr_scope. cbn [fst snd]. rewrite scope_from_by. reflexivity.
+  Qed.
+End Exact.
+
+Lemma memb_spec : forall n id l, memb n id l = true <-> In (n, id) l.
+Proof.
+  intros. unfold memb. rewrite existsb_exists. split.
+  - intros [[a b] [Hin H]]. simpl in H. apply andb_true_iff in H. destruct H as [H1 H2].
+    apply N.eqb_eq in H1. apply N.eqb_eq in H2. subst. exact Hin.
+  - intros Hin. exists (n, id). split; auto. simpl. rewrite !N.eqb_refl. reflexivity.
 Qed.
 
 (** * The span pool against the notifications made so far *)
